@@ -28,7 +28,7 @@ var c29Universe = []string{
 func ipLE(a, b net.IP) bool { return bytes.Compare(a.To16(), b.To16()) <= 0 }
 
 func TestC29(t *testing.T) {
-	rec := ev.New("C29", "trusted-source tables (generated IPv4/IPv6 ranges, loaded through mod_trust_clientip's reload handler), a generated socket peer address (a harness listener served by BfeServer.ServeHttp reports it as RemoteAddr) and generated X-Real-Ip/X-Real-Port/X-Forwarded-For/X-Forwarded-Port request headers (valid, invalid, multiple, spoofing an address inside a routed range); the client address BFE uses is observed through a req_cip_range route and through the X-Real-*/X-Forwarded-For headers a harness backend receives. non-trivial: a spoofing header is present; distinct by table+peer+headers")
+	rec := ev.New("C29", "trusted-source tables (generated IPv4/IPv6 ranges, loaded through mod_trust_clientip's reload handler: from a path= file, from the rewritten configured file, or from the configured file right after a path= reload of another table), a generated socket peer address (a harness listener served by BfeServer.ServeHttp reports it as RemoteAddr) and generated X-Real-Ip/X-Real-Port/X-Forwarded-For/X-Forwarded-Port request headers (valid, invalid, multiple, spoofing an address inside a routed range); the client address BFE uses is observed through a req_cip_range route and through the X-Real-*/X-Forwarded-For headers a harness backend receives. non-trivial: a spoofing header is present; distinct by table+peer+headers")
 	ln, err := sys.NewFakeAddrListener()
 	if err != nil {
 		t.Fatal(err)
@@ -91,9 +91,33 @@ func TestC29(t *testing.T) {
 		}
 		bs, _ := json.Marshal(cfg)
 		p := filepath.Join(w.rig.ConfRoot, "mod_trust_clientip", fmt.Sprintf("gen_%d.data", n%8))
-		os.WriteFile(p, bs, 0o644)
-		if err := w.rig.ReloadModule("mod_trust_clientip", p); err != nil {
-			rt.Fatalf("rig: trust table reload failed for %s: %v", bs, err)
+		// the operator loads the table either from an explicit path= file, or by rewriting the
+		// configured data file and reloading without path (possibly right after a path= reload
+		// of some other table)
+		via := rapid.SampledFrom([]string{"path", "path", "configured", "other-path-then-configured"}).Draw(rt, "reload-via")
+		configured := filepath.Join(w.rig.ConfRoot, "mod_trust_clientip", "trust_client_ip.data")
+		switch via {
+		case "path":
+			os.WriteFile(p, bs, 0o644)
+			if err := w.rig.ReloadModule("mod_trust_clientip", p); err != nil {
+				rt.Fatalf("rig: trust table reload failed for %s: %v", bs, err)
+			}
+		default:
+			if via == "other-path-then-configured" {
+				// some other table: everything trusted, or nothing
+				other := `{"Version":"other","Config":{"all":[{"Begin":"0.0.0.0","End":"255.255.255.255"},{"Begin":"::","End":"ffff:ffff:ffff:ffff:ffff:ffff:ffff:ffff"}]}}`
+				if rapid.Bool().Draw(rt, "other-empty") {
+					other = `{"Version":"other","Config":{}}`
+				}
+				os.WriteFile(p, []byte(other), 0o644)
+				if err := w.rig.ReloadModule("mod_trust_clientip", p); err != nil {
+					rt.Fatalf("rig: trust table reload failed for %s: %v", other, err)
+				}
+			}
+			os.WriteFile(configured, bs, 0o644)
+			if err := w.rig.ReloadModule("mod_trust_clientip", ""); err != nil {
+				rt.Fatalf("rig: trust table reload (configured file) failed for %s: %v", bs, err)
+			}
 		}
 		peerIP := rapid.SampledFrom(c29Universe).Draw(rt, "peer")
 		if peerOverride != "" {
@@ -155,7 +179,8 @@ func TestC29(t *testing.T) {
 		}
 		rec.Case(fmt.Sprintf("%v|%s|%v", ranges, peer, hdr), spoof, cls...)
 		rec.Sample(map[string]any{"trust_ranges": ranges, "peer": peer.String(), "headers": hdr})
-		wit := map[string]any{"trust_ranges": ranges, "peer": peer.String(), "headers": hdr, "trusted_by_model": trusted}
+		wit := map[string]any{"trust_ranges": ranges, "peer": peer.String(), "headers": hdr, "trusted_by_model": trusted, "table_loaded_via": via}
+		rec.Class("reload-via:" + via)
 
 		ln.SetNext(peer)
 		c, err := net.DialTimeout("tcp", addr, 5*time.Second)
